@@ -428,4 +428,29 @@ theorem proposer_paid_partial (pw snap : Nat) (share : Dec.D) (fees : Coins) (d 
 example : 0 < (feeCut 1001 3 5 Dec.half).1 ∧ get (feeRewards 3 5 Dec.half [(ukex, 1001)]).1 ukex = 300 := by
   decide +kernel
 
+/-! ### the token registry's stake-cap rule (x/tokens UpsertTokenInfo) -/
+
+/-- **the registry keeps the hypothesis of the reward bound**: an accepted `UpsertTokenInfo` with a non-negative cap
+leaves every cap non-negative and their sum - over all registered tokens, stake-enabled or not - at most 1 -/
+theorem upsertTok_keeps_capsOk (s s' : St) (id : Nat) (ti : TokInfo) (h : capsOk s) (hn : 0 ≤ ti.stakeCap)
+    (hu : upsertTok s id ti = some s') : capsOk s' := by
+  unfold upsertTok at hu
+  simp only at hu
+  split at hu
+  · rename_i hsum
+    cases hu
+    refine ⟨?_, hsum⟩
+    intro t ht
+    simp only [List.mem_append, List.mem_filter, List.mem_singleton] at ht
+    rcases ht with ⟨hm, _⟩ | rfl
+    · exact h.1 t hm
+    · exact hn
+  · cases hu
+
+/-- switching a token's staking off does not take its cap out of the sum: with ukex at 50 % and a disabled token at
+25 %, a third token cannot get 50 % -/
+example :
+    let s : St := { toks := [(0, ⟨true, 1, (5 * 10^17 : Int), 0⟩), (1, ⟨false, 1, (25 * 10^16 : Int), 0⟩)] }
+    upsertTok s 3 ⟨true, 1, (5 * 10^17 : Int), 0⟩ = none := by decide +kernel
+
 end Sekai.Props.C10
